@@ -27,6 +27,16 @@ CHECKS = {
          "Full product of minter configurations x initial supply {1,1e6,1e12+7,1e30} x millisecond-aligned instants (before start, first/later step, last ms of a period, exactly at the hand-over, after it, no-minting) reached directly or through an earlier block; the reported inflation (Inflation query and Mint event) in the state left by the real minter BeginBlocker must equal annualised-rate/supply within the derived fixed-point bound, be zero when nothing is emitted, and the amount minted over 1ms/1s/1h inside one step must be within one base unit of rate*interval/year.",
          "Inflation is only evaluated in keeper-reachable states; step durations 10 s and 4 years; tolerance derived from operation counts.",
          "DESIGN.md §3 C19"),
+ "C03": ("model_checking",
+         "exhaustive enumeration of validated configurations x inflow histories on real-store branches",
+         "The complete product alphabet of 1- and 2-sub-distributor configurations (12 source lists incl. multi-source and both orders, 7 primaries incl. MAIN / internal / identifier reuse, named shares, burn share) plus 3-sub-distributor chain and fan-in templates is filtered by the real Params.Validate (2.3M candidates quick, 40k accepted); for each accepted configuration every history of 2 (quick) / 3 (thorough) blocks over multi-denomination inflow patterns into every source is run through the real cfedistributor.BeginBlocker; after every block: remains non-negative, sum integral and equal to the main account balance, both registered invariants hold, no panic.",
+         "Module level: only the distributor's BeginBlocker runs; inflows placed directly; amounts from the listed patterns.",
+         "DESIGN.md §3 C03"),
+ "C04": ("model_checking",
+         "exhaustive enumeration of validated configurations x inflow histories vs independent reference model",
+         "Same configuration and history space as C03; after every block every recorded leftover, every account balance (main, module, base) and the burned total must equal an independent block-by-block model of the documented flow keyed by (type,id) with order-insensitive sources (18-decimal truncating shares, remainder to primary, integer parts paid at end of block); leftovers of payable destinations stay below one base unit when no transfer failed.",
+         "Reference model refdist shares the documented numeric convention (truncate at 18 decimals); otherwise independent of the keeper's algorithm.",
+         "DESIGN.md §3 C04"),
 }
 
 NOT_YET = {}
